@@ -10,7 +10,7 @@ Engines (AGENT_GUIDE rule 5):
       write(a) must be a firmware Servo.write(z) with |z - angle level| <= 1/2, a completed write_us(p) a
       writeMicroseconds(z) with |z - pulse level| <= 1/2 (the library takes integers), on the declared pin; every
       read()/read_us() print must be the host's value (to the two printed decimals); setup() must attach with the
-      configured pulse bounds and park at the minimum pulse.  The clamp clause (the integer handed to the library is the
+      configured pulse bounds (nearest whole microseconds) and park at the minimum pulse.  The clamp clause (the integer handed to the library is the
       rounding of a value within the configured bounds; getter values within the bounds) is evaluated on every real
       firmware trace, inside or outside the guard."""
 from __future__ import annotations
@@ -26,12 +26,14 @@ from harness.props.c04_util import Arg, Builder, CASES_PER_SKETCH, run_firmware,
 UNIT = "C04_servo"
 IMPORTS = ["from Reduino.Actuators import Servo", "from Reduino.Communication import SerialMonitor",
            "from Reduino.Core import analog_read"]
-META_PART = ("C04_servo: device model of the Servo declaration (pulse bounds truncated to integers by the parser), write (clamp to the "
-             "configured angles, linear map to the pulse, clamp, Servo.write(static_cast<int>(angle+0.5f))), write_us (clamp, inverse map, "
-             "writeMicroseconds) and the read()/read_us() expressions; for all declarations with whole pulse bounds and all command sequences "
-             "within the configured bounds the printed getters equal the host's and no host call raises, and where every commanded value is >= -1/2 "
-             "the library receives the nearest integer of the host's level; clamp clause proved for ALL declarations, values and histories; two "
-             "refutations outside the guards (negative angle: truncation toward zero; fractional pulse bound: truncated by the parser).")
+META_PART = ("C04_servo: device model of the Servo declaration (angles and pulse bounds kept as floats; attach() with their nearest whole "
+             "microseconds), write (clamp to the configured angles, linear map to the pulse, clamp, Servo.write(nearest integer: a negative value "
+             "is shifted down by one before static_cast<int>(x+0.5f))), write_us (clamp, inverse map, writeMicroseconds) and the read()/read_us() "
+             "expressions; for all declarations with number arguments (whole or fractional, of either sign) and all command sequences within the "
+             "configured bounds the printed getters equal the host's, no host call raises and the library receives the nearest integer of the "
+             "host's level, negative levels included; the parser accepts exactly the declarations the host constructor accepts; clamp clause proved "
+             "for ALL declarations, values and histories. The two former refutations (negative angle truncated toward zero; fractional pulse bound "
+             "truncated by the parser) are repaired in Reduino and replaced by positive theorems; their witnesses are replayed first on every run.")
 
 NAMES = {0: "write", 1: "write_us", 2: "read", 3: "read_us"}
 KW = ["min_angle", "max_angle", "min_pulse_us", "max_pulse_us"]
@@ -86,7 +88,14 @@ def emit_case(b: Builder, cid, case):
 # ---------------------------------------------------------------------------------------------------------------
 
 def decl_guard(c):
-    return all(bound(c, n).denominator == 1 for n in ("min_pulse_us", "max_pulse_us"))
+    """every declaration argument is a number literal (all generated ones are): the model's decl_ok"""
+    return True
+
+
+def rnear(q):
+    """nearest integer, halves away from zero (Device/DServo.v rnear)"""
+    q = Fraction(q)
+    return -math.floor(-q + Fraction(1, 2)) if q < 0 else math.floor(q + Fraction(1, 2))
 
 
 def ordered(c):
@@ -95,7 +104,7 @@ def ordered(c):
 
 
 def parser_accepts(c):
-    return bound(c, "min_angle") < bound(c, "max_angle") and math.trunc(bound(c, "min_pulse_us")) < math.trunc(bound(c, "max_pulse_us"))
+    return ordered(c)
 
 
 def in_range(c, o):
@@ -104,10 +113,6 @@ def in_range(c, o):
     if o["code"] == 1:
         return bound(c, "min_pulse_us") <= o["args"][0].frac() <= bound(c, "max_pulse_us")
     return True
-
-
-def level_ok(o):
-    return o["code"] >= 2 or o["args"][0].frac() >= Fraction(-1, 2)
 
 
 # ---------------------------------------------------------------------------------------------------------------
@@ -126,10 +131,12 @@ CALIBS = [
     {"min_angle": 0, "max_angle": 270, "min_pulse_us": 600.0, "max_pulse_us": 2400},
     {"min_angle": True, "max_angle": 128, "min_pulse_us": 200, "max_pulse_us": 712},
     {"min_angle": 0.25, "max_angle": 1.75, "min_pulse_us": 0, "max_pulse_us": 1024},
-]
-CALIBS_FRACTIONAL = [           # outside the declaration guard (F-C04-servo-fractional-pulse-bound): firmware + device model only
+    # fractional pulse bounds (the region the former finding F-C04-servo-fractional-pulse-bound excluded)
     {"min_pulse_us": 544.5},
     {"min_pulse_us": 1000.25, "max_pulse_us": 1999.75, "min_angle": -30, "max_angle": 30},
+    {"min_pulse_us": 600.75, "max_pulse_us": 2399.5},
+    {"min_angle": -128, "max_angle": 128, "min_pulse_us": 544.25, "max_pulse_us": 544.75},        # both bounds truncate to 544
+    {"min_angle": -64, "max_angle": 64, "min_pulse_us": -200.5, "max_pulse_us": 823.5},           # negative pulse levels
 ]
 CALIBS_REJECT = [               # min >= max somewhere: the host constructor raises ValueError, and so must the parser
     {"min_angle": 90, "max_angle": 90},
@@ -140,6 +147,9 @@ CALIBS_REJECT = [               # min >= max somewhere: the host constructor rai
     {"max_pulse_us": 500},
     {"max_angle": 0},
     {"max_angle": -0.5},
+    {"min_pulse_us": 544.5, "max_pulse_us": 544.5},
+    {"min_pulse_us": 544.75, "max_pulse_us": 544.25},
+    {"min_pulse_us": 2400.5},
 ]
 
 
@@ -151,7 +161,7 @@ def angles_in(c):
     lo, hi = bound(c, "min_angle"), bound(c, "max_angle")
     mid = (lo + hi) / 2
     cand = [lo, hi, mid, lo + Fraction(1, 2), hi - Fraction(1, 4), lo + Fraction(3, 4), mid + Fraction(1, 2), mid - Fraction(1, 4), 0, 1, True, 90, 45.5, 90.75,
-            -0.25, -0.5, -1, -10, -44.25, 127.5, 12.125]
+            -0.25, -0.5, -0.75, -1, -1.5, -10, -10.5, -9.75, -44.25, -44.5, -63.5, 127.5, 12.125, lo + Fraction(1, 4), mid - Fraction(1, 2)]
     out = []
     for v in cand:
         q = Fraction(int(v) if isinstance(v, bool) else v)
@@ -163,7 +173,8 @@ def angles_in(c):
 def pulses_in(c):
     lo, hi = bound(c, "min_pulse_us"), bound(c, "max_pulse_us")
     mid = (lo + hi) / 2
-    cand = [lo, hi, mid, lo + 1, hi - 1, lo + Fraction(1, 2), hi - Fraction(1, 4), mid + Fraction(3, 4), 1500, 1000, 1472.25, 600, 700.5, 256, 1, 0, True]
+    cand = [lo, hi, mid, lo + 1, hi - 1, lo + Fraction(1, 2), hi - Fraction(1, 4), mid + Fraction(3, 4), 1500, 1000, 1472.25, 600, 700.5, 256, 1, 0, True,
+            -0.5, -0.25, -1, -7.5, -8.75, -100, -199.5]
     out = []
     for v in cand:
         q = Fraction(int(v) if isinstance(v, bool) else v)
@@ -221,15 +232,15 @@ def gen_cases(ctx):
             if r.random() < 0.35:
                 ops.append(op(r.choice([2, 3])))
         cases.append({"pin": c0["pin"], "ctor": cal, "ops": ops + both, "family": "random"})
-    # clamp stream: values outside the configured bounds, fractional pulse bounds (firmware + device model only)
-    for cal in CALIBS + CALIBS_FRACTIONAL:
+    # clamp stream: values outside the configured bounds (firmware + device model only)
+    for cal in CALIBS:
         c0 = {"pin": 9, "ctor": cal}
         for v in values_out(c0, False):
             cases.append({"pin": pin(), "ctor": cal, "ops": [op(0, mk(ctx, v))] + both, "family": "clamp-grid"})
         for v in values_out(c0, True):
             cases.append({"pin": pin(), "ctor": cal, "ops": [op(1, mk(ctx, v))] + both, "family": "clamp-grid"})
     for _ in range(60 if quick else 700):
-        cal = r.choice(CALIBS + CALIBS_FRACTIONAL)
+        cal = r.choice(CALIBS)
         c0 = {"pin": pin(), "ctor": cal}
         ops = [random_op(ctx, c0, out=True) for _ in range(r.randint(2, 7))]
         cases.append({"pin": c0["pin"], "ctor": cal, "ops": ops + both, "family": "clamp-random"})
@@ -389,7 +400,7 @@ def oracle_one(case, rec):
     hitems, _ = host_items(rec["host"])
     # setup(): attach with the configured pulse bounds, parked at the minimum pulse
     st = rec.get("setup") or []
-    want_setup = [[0, pin, int(bound(case, "min_pulse_us")), int(bound(case, "max_pulse_us"))], [2, pin, int(bound(case, "min_pulse_us"))]]
+    want_setup = [[0, pin, rnear(bound(case, "min_pulse_us")), rnear(bound(case, "max_pulse_us"))], [2, pin, rnear(bound(case, "min_pulse_us"))]]
     if st != want_setup:
         F.append({"what": f"Servo on pin {pin}: setup() performs {st} (0 attach pin min max, 2 writeMicroseconds pin us); the host object has pulse bounds "
                           f"{float(bound(case, 'min_pulse_us'))}..{float(bound(case, 'max_pulse_us'))} and starts at the minimum pulse",
@@ -422,7 +433,7 @@ def oracle_one(case, rec):
             F.append({"what": f"Servo on pin {pin}: {NAMES[o['code']]} became the library call {d} (1 write, 2 writeMicroseconds; pin) on the device, host pin {h[1]}",
                       "expected": [kind, pin], "observed": d, "key": "servo-call"})
             break
-        if level_ok(o) and not near(d[2], level):
+        if not near(d[2], level):
             F.append({"what": f"Servo on pin {pin}: {NAMES[o['code']]}({o['args'][0].v}) hands {d[2]} to the Servo library; the host's "
                               f"{'angle' if kind == 1 else 'pulse'} level is {float(level)} (more than 1/2 apart)",
                       "expected": float(level), "observed": d[2], "key": "servo-level"})
@@ -436,16 +447,15 @@ def oracle_one(case, rec):
 
 def clamp_failures(case, rec):
     """clamp clause on a real firmware trace: every integer handed to the library is the rounding of a value within the configured
-    bounds as the DEVICE holds them (pulse bounds truncated), printed getters within the bounds"""
+    bounds, printed getters within the bounds"""
     F = []
     dev, fgets, _ = fw_items(rec["fw"])
     la, ha = bound(case, "min_angle"), bound(case, "max_angle")
-    lp, hp = Fraction(math.trunc(bound(case, "min_pulse_us"))), Fraction(math.trunc(bound(case, "max_pulse_us")))
+    lp, hp = bound(case, "min_pulse_us"), bound(case, "max_pulse_us")
     half = Fraction(1, 2)
     for d in dev:
         lo, hi = (la, ha) if d[0] == 1 else (lp, hp)
-        top = hi + half if hi >= -half else hi + 3 * half
-        if d[0] in (1, 2) and not (lo - half <= d[2] <= top):
+        if d[0] in (1, 2) and not (lo - half <= d[2] <= hi + half):
             F.append({"what": f"Servo on pin {case['pin']}: {'write' if d[0] == 1 else 'writeMicroseconds'}({d[2]}) reaches the library outside the configured bounds "
                               f"{float(lo)}..{float(hi)}", "expected": f"{float(lo)}..{float(hi)}", "observed": d[2], "key": "servo-clamp"})
             break
@@ -471,34 +481,52 @@ def clamp_failures(case, rec):
 # known findings
 # ---------------------------------------------------------------------------------------------------------------
 
-def load_findings(ctx):
+def unit_findings(ctx):
     items = {f["id"]: f for f in ctx.findings if f.get("unit") == UNIT}
-    p = C.VERIF / "known_findings.d" / "C04.json"
+    p = C.VERIF / "known_findings.d" / "C04.json"          # the source of known_findings.json: its entries win
     if p.exists():
         for f in json.loads(p.read_text()):
             if f.get("unit") == UNIT:
-                items.setdefault(f["id"], f)
-    return [f for f in items.values() if f.get("kind") != "fixed"]
+                items[f["id"]] = f
+    return list(items.values())
 
 
-def finding_reproduces(ctx, f):
+def load_findings(ctx):
+    return [f for f in unit_findings(ctx) if f.get("kind") != "fixed"]
+
+
+def witness_failures(ctx, f):
+    """the whole statement (setup, levels, getters, clamp) on the witness of a finding -> failure dicts, or None if it could not be run"""
     case = case_from_replay(f["witness"]["replay"])
     recs, _ = run_batch(ctx, [case])
     rec = recs[0]
-    if rec["fw"] is None or rec["host"] is None or rec.get("host_why"):
-        return False
-    return bool(oracle_full(case, rec))
+    if rec["fw"] is None:
+        return case, [{"what": f"the witness script is not transpiled/compiled/run: {rec['why']}", "expected": "firmware", "observed": rec["why"], "key": "servo-witness"}]
+    if rec["host"] is None or rec.get("host_why"):
+        return case, [{"what": f"the host class raised on the witness: {rec.get('host_why')}", "expected": "no exception", "observed": rec.get("host_why"),
+                       "key": "servo-witness"}]
+    return case, oracle_one(case, rec) + clamp_failures(case, rec)
 
 
-def oracle_full(case, rec):
-    """the statement without the level guard: used to replay witnesses"""
-    global level_ok
-    saved = level_ok
-    level_ok = lambda o: True
-    try:
-        return oracle_one(case, rec)
-    finally:
-        level_ok = saved
+def finding_reproduces(ctx, f):
+    return bool(witness_failures(ctx, f)[1])
+
+
+def replay_fixed(ctx):
+    """repaired defects (kind "fixed") suppress nothing: their witnesses are replayed FIRST, and one that fails again is a VIOLATION
+    whose replay is the witness"""
+    n = 0
+    for f in unit_findings(ctx):
+        if f.get("kind") != "fixed":
+            continue
+        n += 1
+        case, F = witness_failures(ctx, f)
+        if F:
+            pub = case_pub(case)
+            pub["finding"] = f["id"]
+            pub["witness"] = f["witness"]
+            ctx.fail(f"repaired defect {f['id']} is back: {F[0]['what']}", pub, F[0]["expected"], F[0]["observed"], key="fixed-defect-returned:" + f["id"])
+    return n
 
 
 # ---------------------------------------------------------------------------------------------------------------
@@ -511,8 +539,11 @@ def run_unit(ctx: C.Ctx):
     model = ctx.model([case_wire(c) for c in cases], unit=UNIT) if have_model else [None] * len(cases)
     recs, n_sketches = run_batch(ctx, cases)
     stats = {"cases": len(cases), "sketches": n_sketches, "streams": {}, "families": {}, "ops": {}, "arg_kinds": {"literal": 0, "run-time": 0},
-             "calibrations": {}, "fw_calls": 0, "getter_prints": 0, "oracle_cases": 0, "clamp_cases": 0, "reject_cases": 0, "ops_outside_level_guard": 0,
-             "negative_angle_writes_in_guard": 0}
+             "calibrations": {}, "fw_calls": 0, "getter_prints": 0, "oracle_cases": 0, "clamp_cases": 0, "reject_cases": 0,
+             "negative_level_writes_in_guard": 0, "negative_tie_writes_in_guard": 0, "fractional_pulse_bound_cases_in_guard": 0,
+             "fixed_witnesses_replayed_first": getattr(ctx, "c04_fixed_replayed", {}).get(UNIT)}
+    if stats["fixed_witnesses_replayed_first"] is None:
+        stats["fixed_witnesses_replayed_first"] = replay_fixed(ctx)
     distinct, seen_fail = set(), set()
 
     def fail(f, c):
@@ -555,7 +586,7 @@ def run_unit(ctx: C.Ctx):
             ctx.disagree("unexpected firmware events in a servo case", case_pub(c), None, junk[:5])
         # ---- correspondence: device model vs real firmware
         if m is not None:
-            hctor, decl, mdev, mdg, mhev, mhg, mhok, mrange, mlevel, mdeclok = m[1:11]
+            hctor, decl, mdev, mdg, mhev, mhg, mhok, mrange, mdeclok = m[1:10]
             if decl[0] != 1:
                 ctx.disagree("device model: the parser would reject this declaration, the real one accepted it", case_pub(c), decl, r["setup"])
             elif [list(x) for x in decl[1]] != r["setup"]:
@@ -569,8 +600,6 @@ def run_unit(ctx: C.Ctx):
                 ctx.disagree("device model vs firmware: printed read()/read_us() values", case_pub(c), [float(q) for q in mg], fgets)
             if bool(mdeclok) != decl_guard(c):
                 ctx.disagree("guard: the model's decl_ok and the generator's disagree", case_pub(c), mdeclok, decl_guard(c))
-            if [bool(x) for x in mlevel] != [level_ok(o) for o in c["ops"]]:
-                ctx.disagree("guard: the model's level flags and the generator's disagree", case_pub(c), mlevel, [level_ok(o) for o in c["ops"]])
             if hctor[0] == 0 and [bool(x) for x in mrange] != [in_range(c, o) for o in c["ops"]]:
                 ctx.disagree("guard: the model's range flags and the generator's disagree", case_pub(c), mrange, [in_range(c, o) for o in c["ops"]])
         # ---- clamp clause on the real trace (every case)
@@ -593,7 +622,7 @@ def run_unit(ctx: C.Ctx):
             # host model vs real class: the commands the levels stand for, and the getter values
             lv = [x for x in hitems if x[0] == "lvl"]
             wr = [o for o in c["ops"] if o["code"] < 2]
-            want = [[1, x[1], math.floor(x[2] + Fraction(1, 2))] if o["code"] == 0 else [2, x[1], math.floor(x[3] + Fraction(1, 2))] for x, o in zip(lv, wr)]
+            want = [[1, x[1], rnear(x[2])] if o["code"] == 0 else [2, x[1], rnear(x[3])] for x, o in zip(lv, wr)]
             if len(lv) != len(wr) or want != [list(x) for x in mhev]:
                 ctx.disagree("host model vs real Servo class: completed writes (as nearest-integer library commands)", case_pub(c), [list(x) for x in mhev], want)
             hg = [x[1] for x in hitems if x[0] == "get"]
@@ -602,8 +631,10 @@ def run_unit(ctx: C.Ctx):
                 ctx.disagree("host model vs real Servo class: getter values", case_pub(c), [float(q) for q in mq], hg)
         # ---- property oracle on the real artefacts
         stats["oracle_cases"] += 1
-        stats["ops_outside_level_guard"] += sum(1 for o in c["ops"] if not level_ok(o))
-        stats["negative_angle_writes_in_guard"] += sum(1 for o in c["ops"] if o["code"] == 0 and o["args"][0].frac() < 0)
+        stats["negative_level_writes_in_guard"] += sum(1 for o in c["ops"] if o["code"] < 2 and o["args"][0].frac() < 0)
+        stats["negative_tie_writes_in_guard"] += sum(1 for o in c["ops"] if o["code"] < 2 and o["args"][0].frac() < 0 and (2 * o["args"][0].frac()).denominator == 1
+                                                     and o["args"][0].frac().denominator == 2)
+        stats["fractional_pulse_bound_cases_in_guard"] += int(any(bound(c, n).denominator != 1 for n in ("min_pulse_us", "max_pulse_us")))
         if len(dev) >= 1:
             distinct.add(json.dumps([r["setup"], dev, fgets]))
         for f in oracle_one(c, r):
@@ -620,18 +651,20 @@ def run_unit(ctx: C.Ctx):
     return {
         "evaluations": stats["oracle_cases"] + stats["clamp_cases"] + stats["reject_cases"],
         "distinct_nontrivial": len(distinct),
-        "rule": "servo cases = a declaration Servo(pin, <calibration>) with literal arguments (12 calibrations: the default, custom angle ranges including "
-                "negative and fractional ones, custom whole pulse bounds) followed by command sequences: the power-on getters, every boundary value of the "
-                "calibration (min, max, middle, +-1/4, +-1/2, 0, 1, True, negatives) once as a literal and once as a run-time value (analog_read input +- "
-                "arithmetic) with both getters after it, ordered pairs of commands, seeded random sequences of 2-9 commands with interleaved getters; a clamp "
-                "stream with values outside the bounds and with fractional pulse bounds (firmware + device model only); declarations with min >= max "
-                "(transpile + host constructor only). 40 cases per sketch. evaluations = in-guard cases through the oracle + cases through the clamp oracle + "
-                "rejected declarations; distinct non-trivial = distinct (setup, library calls, prints) traces with at least one command.",
+        "rule": "servo cases = a declaration Servo(pin, <calibration>) with literal arguments (17 calibrations: the default, custom angle ranges including "
+                "negative and fractional ones, custom whole, fractional and negative pulse bounds, two fractional bounds inside the same whole microsecond) "
+                "followed by command sequences: the power-on getters, every boundary value of the calibration (min, max, middle, +-1/4, +-1/2, 0, 1, True, "
+                "negatives including exact negative halves) once as a literal and once as a run-time value (analog_read input +- arithmetic) with both "
+                "getters after it, ordered pairs of commands, seeded random sequences of 2-9 commands with interleaved getters; a clamp stream with values "
+                "outside the bounds (firmware + device model only); declarations with min >= max, fractional ones included (transpile + host "
+                "constructor only). 40 cases per sketch. The witnesses of the repaired findings are replayed before anything else. evaluations = in-guard "
+                "cases through the oracle + cases through the clamp oracle + rejected declarations; distinct non-trivial = distinct (setup, library calls, "
+                "prints) traces with at least one command.",
         "samples": [case_pub(c) for c in cases[:1] + [c for c in cases if c["family"] == "random"][:1]],
         "distribution": stats,
-        "guard": "declaration: literal arguments, min < max, pulse bounds whole numbers (outside: F-C04-servo-fractional-pulse-bound); commands within the "
-                 "configured bounds (the host raises otherwise; exercised in the device-only clamp stream); the integer handed to the library is compared "
-                 "with the host's level only for commanded values >= -1/2 (below: F-C04-servo-negative-angle-rounding) - getters are compared for all",
+        "guard": "declaration: literal number arguments, min < max (otherwise both sides must refuse it); commands within the configured bounds (the host "
+                 "raises otherwise; exercised in the device-only clamp stream). No listed finding is excluded: F-C04-servo-negative-angle-rounding and "
+                 "F-C04-servo-fractional-pulse-bound are repaired (kind fixed), negative levels and fractional pulse bounds are generated and compared",
         "unmodelled": ["float32 arithmetic of the device (exact rationals in the model; commanded values are dyadic so the integer calls are exact, printed "
                        "getters compared to 0.007)", "declaration arguments that are not literals (run-time calibration)", "non-numeric arguments (None)",
                        "the Arduino Servo library itself (the mock records the calls; the real library clamps write() to 0..180 whatever the calibration)"],
@@ -666,7 +699,7 @@ def replay_unit(data):
         return 1
     F = clamp_failures(c, rec)
     if rec["host"] is not None and not rec.get("host_why"):
-        F += oracle_full(c, rec)
+        F += oracle_one(c, rec)
     elif rec.get("host_why"):
         print("host:", rec["host_why"])
     for f in F:
